@@ -519,6 +519,7 @@ class Ref:
 
     def build_value(self, items: list, binds: list):
         ast: dict = {}
+        accumulated: set = set()
         override = None
         has_override = False
         for b in binds:
@@ -530,10 +531,17 @@ class Ref:
                         ast.setdefault(safekey(n), None)
             elif b[0] == 'set':
                 n = safekey(b[1])
-                if ast.get(n) is None:
+                cur = ast.get(n)
+                if cur is None:
                     ast[n] = b[2]
+                elif n in accumulated:
+                    ast[n] = cur + [b[2]]
+                elif isinstance(cur, list) or isinstance(b[2], list):
+                    raise Undecided('list-valued name bound twice')
                 else:
-                    raise Undecided('name bound twice')
+                    # docs/ast.rst: an entry is a list when more than one item was associated with the name
+                    ast[n] = [cur, b[2]]
+                    accumulated.add(n)
             elif b[0] == 'add':
                 n = safekey(b[1])
                 cur = ast.get(n)
